@@ -172,7 +172,7 @@ META["C07"] = {
 
 META["C09"] = {
     "title": "Rate-limiting operators never invent, duplicate or reorder items",
-    "rule": "cases = (operator in debounce / throttle_time / throttle(duration selector) with all three edge modes / sample(interval) / buffer_with_time / buffer_with_count_and_time, window in {1,5,10} ms (and, for debounce and the throttles, a zero-length window in one case of eight: invariants only), timed script of 0..n uniquely numbered items (quick n=5, thorough n=9) whose gaps are 0, 1, window-1, window, window+1, 2*window(+1) ms, terminal none/complete/error, scheduler form, task order fifo|any, prompt|late schedule, seed). Every order of a source event and a timer falling due at the same instant is an explorer choice. Non-trivial: at least one item was suppressed or buffered AND at least one emission happened at an instant with no source event (i.e. was made by a timer); distinct = hash(case). A share of the cases (counter runs_on_the_real_LocalPool) is built with the library's own `impl Scheduler for futures::executor::LocalSpawner` and run on the real futures LocalPool (run_until_stalled / try_run_one) instead of the harness executor. Thread part: debounce / throttle_time (all three edges) / buffer_with_time over a hot SubjectThreads with 1-2 producer threads (1-3 items each, optional terminal, optional unsubscribing thread) while a managed worker thread runs the operator's timer tasks and fires the virtual timers - i.e. a multi-threaded scheduler, where a timer task can run in the middle of a next() call; random/PCT and preemption-bounded systematic schedules at the hooked lock points plus free-running OS threads; oracle: only emitted items, each at most once, each producer's items in its own order, nothing delivered before its next() was called; buffer_with_time loses nothing when the source completes; for debounce and throttle_time without an unsubscribe additionally linearizability with the timer tasks as operations: every source call (interval call..return) and every task poll that finished a task (interval of the poll on the worker thread) is an operation, a delivery belongs to the operation of its thread that contains it, and some total order respecting real time must make the sequential operator model emit, operation by operation, exactly what was observed inside it.",
+    "rule": "cases = (operator in debounce / throttle_time / throttle(duration selector) with all three edge modes / sample(interval) / buffer_with_time / buffer_with_count_and_time, window in {1,5,10} ms (and, for debounce and the throttles, a zero-length window in one case of eight: invariants only), timed script of 0..n uniquely numbered items (quick n=5, thorough n=9) whose gaps are 0, 1, window-1, window, window+1, 2*window(+1) ms, terminal none/complete/error, scheduler form, task order fifo|any, prompt|late schedule, seed). Every order of a source event and a timer falling due at the same instant is an explorer choice. Non-trivial: at least one item was suppressed or buffered AND at least one emission happened at an instant with no source event (i.e. was made by a timer); distinct = hash(case). A share of the cases (counter runs_on_the_real_LocalPool) is built with the library's own `impl Scheduler for futures::executor::LocalSpawner` and run on the real futures LocalPool (run_until_stalled / try_run_one) instead of the harness executor. Thread part: debounce / throttle_time (all three edges) / buffer_with_time / buffer_with_count_and_time / sample(interval) over a hot SubjectThreads with 1-2 producer threads (1-3 items each, optional terminal, optional unsubscribing thread) while a managed worker thread runs the operator's timer tasks and fires the virtual timers - i.e. a multi-threaded scheduler, where a timer task can run in the middle of a next() call; random/PCT and preemption-bounded systematic schedules at the hooked lock points plus free-running OS threads; oracle: only emitted items, each at most once, each producer's items in its own order, nothing delivered before its next() was called; the time buffers lose nothing when the source completes, are never empty and never exceed the count limit; for debounce and throttle_time without an unsubscribe additionally linearizability with the timer tasks as operations: every source call (interval call..return) and every task poll that finished a task (interval of the poll on the worker thread) is an operation, a delivery belongs to the operation of its thread that contains it, and some total order respecting real time must make the sequential operator model emit, operation by operation, exactly what was observed inside it.",
     "assumptions": COMMON_ASSUME + [
         "invariants (only source items, at most once, in source order, source's terminal, buffers non-empty / <= count / concatenating to the source on completion) are checked on every run; the exact debounce and throttle models are applied to prompt runs only and branch where a source event coincides with a window end (either order accepted); late runs are judged by 'never earlier than arrival + window'",
         "throttle model: leading edge emits the window-opening item at once; trailing edge emits the last item of the window at window end (in trailing-only mode the opener counts), each item at most once; the trailing emission does not open a window; completion flushes the trailing item",
@@ -324,7 +324,7 @@ META["C10"] = {
     "level_text": "Exploration: preemption-bounded systematic enumeration (bound 1 quick, 2 thorough) on small scenarios of all 20 families plus sampled lock-level interleavings (uniform + PCT); logical deadlock detection is exact on every schedule run.",
     "level_note": "Trusted: baton scheduler (harness/src/conc.rs), the lock hook placement before MutArc::lock, probes.",
     "design_ref": "DESIGN.md §5 C10",
-    "require": {"quick": {"thread_scenarios_covered": 23, "distinct_thread_schedules": 8000, "systematic_scenarios": 40}, "thorough": {"thread_scenarios_covered": 23, "systematic_scenarios": 160}},
+    "require": {"quick": {"thread_scenarios_covered": 25, "distinct_thread_schedules": 8000, "systematic_scenarios": 40}, "thorough": {"thread_scenarios_covered": 25, "systematic_scenarios": 160}},
     "watchdog_s": {"quick": 600, "thorough": 7200},
 }
 
